@@ -327,7 +327,7 @@ def build_request(ex, meta):
         r["trait"] = o["trait"]
     if "derive" in o:
         r["derive_keep"] = [x for x in o["derive"].split(",") if x and x != "Structural"]
-    for k in ("index_recv", "drop_calls", "opaque_macros", "mut_params", "str_params", "into_vec", "iter_on"):
+    for k in ("index_recv", "drop_calls", "opaque_macros", "mut_params", "str_params", "into_vec", "iter_on", "keyed_mut_iter"):
         if k in o:
             r[k] = o[k].split(",")
     if "field_types" in o:
@@ -411,6 +411,8 @@ def expand_twins(unit):
             props = t["opts"].get("props") or ",".join(unit["meta"]["props"])
             t["opts"]["props"] = ",".join(x for x in props.split(",") if x and x != "C09") or "none"
             t["rename_calls"] = pc_renames(twinned, seg["opts"])
+            if seg["opts"].get("pc_attrs"):
+                t["opts"]["attrs"] = ";".join(x for x in (seg["opts"].get("attrs", ""), seg["opts"]["pc_attrs"]) if x)
             t["twin_of"] = seg["path"]
             strip = lambda ls: [l for l in ls if not NOPANIC_TAG.search(l)]
             t["contract"] = strip(t["contract"])
